@@ -74,6 +74,39 @@ def run(ctx):
                               {"cfg": cfg, "last_emitted_iteration": last["iteration"]})
         if len(ctx.samples) < 3 and has_cb:
             ctx.sample({"every": every, "iterations": T, "callback_invocations": got})
+    # ---------------- (a') a run interrupted under one cadence and resumed under ANOTHER: the cadence is a rule about the run's iteration
+    # numbers (every k-th iteration of the run), not about the iterations of the call that happens to execute them
+    import copy
+    nrc = 0
+    for r in [r for r in runs if r.error is None and r.cfg["kind"] != "emcee_smc" and len(r.history.beta) >= 4][: ctx.scale(5, 30)]:
+        total = r.target.ncalls
+        if total < 8:
+            continue
+        for e1, e2 in ((3, 2), (1, 3), (2, 3)):
+            c1 = copy.deepcopy(r.cfg)
+            c1["ckpt"], c1["every"] = "cb-every", e1
+            k = ctx.rng.randrange(total // 2, total - 1)
+            bad = sr.do_run(c1, fail_at=k)
+            if bad.error is None or not bad.payloads:
+                continue
+            last = bad.payloads[-1]
+            i0 = last["iteration"]
+            c2 = copy.deepcopy(c1)
+            c2["every"] = e2
+            r2 = sr.do_run(c2, resume_from=last["bytes"], vid0=10000)
+            nrc += 1
+            ctx.count(("resumed-other-cadence", r.cfg["seed"], e1, e2, i0), i0 % e2 != 0, kind="cadence/resumed-under-another-cadence")
+            rep = {"cfg": c1, "first_cadence": e1, "fault_at_user_call": k, "resumed_from_iteration": i0, "second_cadence": e2}
+            if r2.error is not None:
+                ctx.violation(f"resumed-other-cadence-raises:{r2.error[0]}", f"resume under cadence {e2}: {r2.error[:2]}", rep)
+                continue
+            T2 = len(r2.history.beta)
+            got = [(p["iteration"], p["forced"]) for p in r2.payloads]
+            want = [(i, f) for (i, f) in expected_cadence(T2, True, e2) if f or i > i0]
+            if got != want:
+                ctx.violation(f"cadence-after-resume:every={e2}", f"resumed at iteration {i0} with checkpoint_every={e2}: callback invoked at {got}, "
+                              f"the cadence dictates {want} (T={T2})", dict(rep, got=got, want=want))
+    ctx.extra["resumed_under_another_cadence"] = nrc
     # ---------------- (b) file + fault injection
     spy = {"log": []}
     orig_cb = Sampler.default_checkpoint_callback
